@@ -287,7 +287,12 @@ def c20_stream(cfg, pre_events, lines):
             eol = pl.eol      # the processor follows the most recent line ending
         kind, cmd, r = live_result(twin, line)
         use = eol or "\n"
-        if kind == "other" or r[0] == "none" or (kind == "at" and r[0] == "at" and not r[1]):
+        handled = None
+        if kind == "at":
+            # whether some configured action matches is decided here, not taken from the hook's return value
+            pieces = cmd.split(None, 1)
+            handled = bool(oracle._at_actions(cfg, pieces[0][1:], "" if len(pieces) < 2 else pieces[1]))
+        if kind == "other" or r[0] == "none" or (kind == "at" and r[0] == "at" and not handled):
             want = line
         elif r[0] == "ignore":
             want = None
